@@ -20,6 +20,7 @@ package main
 
 import (
 	"fmt"
+	"go/token"
 	"go/types"
 
 	"golang.org/x/tools/go/ssa"
@@ -58,6 +59,92 @@ func locallyGrown(v ssa.Value, seen map[ssa.Value]bool) bool {
 	return false
 }
 
+// an address inside an object allocated by the current invocation: a local Alloc, or an element of
+// a slice that can only refer to arrays made by this invocation
+func freshRootedAddr(v ssa.Value) bool {
+	for {
+		switch x := v.(type) {
+		case *ssa.Alloc:
+			return true
+		case *ssa.FieldAddr:
+			v = x.X
+		case *ssa.IndexAddr:
+			if _, isSlice := x.X.Type().Underlying().(*types.Slice); isSlice {
+				return freshSliceValue(x.X, map[ssa.Value]bool{})
+			}
+			v = x.X
+		default:
+			return false
+		}
+	}
+}
+
+// locallyGrown, or the value of a slice field of a private local object (an Alloc that is only
+// read, written field by field and returned - never passed on or stored before) all of whose
+// assignments in this function are themselves such slices (result.variants = make(..) ... result.variants[i] = ..)
+func freshSliceValue(v ssa.Value, seen map[ssa.Value]bool) bool {
+	if locallyGrown(v, map[ssa.Value]bool{}) {
+		return true
+	}
+	if seen[v] {
+		return true
+	}
+	seen[v] = true
+	ld, ok := v.(*ssa.UnOp)
+	if !ok || ld.Op != token.MUL {
+		return false
+	}
+	fa, ok := ld.X.(*ssa.FieldAddr)
+	if !ok {
+		return false
+	}
+	a, ok := fa.X.(*ssa.Alloc)
+	if !ok || !privateAlloc(a) {
+		return false
+	}
+	stored := false
+	for _, u := range *a.Referrers() {
+		fa2, ok := u.(*ssa.FieldAddr)
+		if !ok || fa2.Field != fa.Field {
+			continue
+		}
+		for _, u2 := range *fa2.Referrers() {
+			if st, ok := u2.(*ssa.Store); ok && st.Addr == fa2 {
+				stored = true
+				if !freshSliceValue(st.Val, seen) {
+					return false
+				}
+			}
+		}
+	}
+	return stored
+}
+
+// the Alloc's address is used only to address its fields (loaded, stored to, indexed) and as a
+// return value: no callee and no other object can have changed its fields
+func privateAlloc(a *ssa.Alloc) bool {
+	for _, u := range *a.Referrers() {
+		switch x := u.(type) {
+		case *ssa.FieldAddr:
+			for _, u2 := range *x.Referrers() {
+				switch y := u2.(type) {
+				case *ssa.Store:
+					if y.Addr != x {
+						return false // the field's address itself is stored somewhere
+					}
+				case *ssa.UnOp, *ssa.DebugRef:
+				default:
+					return false
+				}
+			}
+		case *ssa.Return, *ssa.DebugRef:
+		default:
+			return false
+		}
+	}
+	return true
+}
+
 func (e *Engine) computeNonFresh() {
 	e.nonFresh = map[*ssa.Function]map[string]bool{}
 	type info struct{ callees []*ssa.Function }
@@ -74,8 +161,8 @@ func (e *Engine) computeNonFresh() {
 			for _, ins := range b.Instrs {
 				switch x := ins.(type) {
 				case *ssa.Store:
-					if a := rootAllocOfAddr(x.Addr); a != nil {
-						continue // a local object of this invocation
+					if freshRootedAddr(x.Addr) {
+						continue // a local object of this invocation, or an element of a slice it made
 					}
 					var m ModSet
 					addStoreLocs(&m, x.Addr)
@@ -103,11 +190,14 @@ func (e *Engine) computeNonFresh() {
 					case *ssa.Builtin:
 						switch v.Name() {
 						case "append":
-							if locallyGrown(c.Args[0], map[ssa.Value]bool{}) {
+							if freshSliceValue(c.Args[0], map[ssa.Value]bool{}) {
 								continue
 							}
 							fallthrough
 						case "copy":
+							if v.Name() == "copy" && freshSliceValue(c.Args[0], map[ssa.Value]bool{}) {
+								continue
+							}
 							if st, ok := c.Args[0].Type().Underlying().(*types.Slice); ok {
 								var m ModSet
 								if isStruct(st.Elem()) {
